@@ -109,5 +109,22 @@ CHECKS.update({
 for _k in ("C02", "C06", "C07", "C08", "C09", "C10", "C11", "C15", "C18", "C20"):
     NOT_APPLICABLE.pop(_k, None)
 
+CHECKS.update({
+    "C13": dict(category="translation_validation",
+                text="Lean model of get_scaling / _get_channel_scaling / the from_properties constructors / MultiScaling evaluation over ℚ vs the real channel[:] on files "
+                     "carrying NI_Scale properties (channel / group / root placement, status 'scaled', DAQmx scaler inputs); oracle: independent exact-rational evaluation of "
+                     "the graph, window = window of scaled, lazy = eager, raw bytes unchanged. Ring-level theorem not yet registered.",
+                level_note=COMMON_NOTE + "binary64 evaluation compared with exact rationals within 1e-12; cyclic wiring excluded.",
+                technique="Lean 4 executable model over ℚ + differential correspondence + exact-rational oracle"),
+    "C14": dict(category="translation_validation",
+                text="Model of the declared dtype (_compute_scale_dtype) and of the dtype the scale graph really produces, with NumPy's promotion table re-extracted on every run, "
+                     "vs channel.dtype and the arrays returned; oracle: every kind of read of every raw type x scale kind, eager and lazy, returns channel.dtype (modulo byte order), "
+                     "empty results included, full reads have len(channel) elements. Theorem declared = actual not yet registered.",
+                level_note=COMMON_NOTE,
+                technique="Lean 4 executable model + NumPy promotion table translator + exhaustive type x scale enumeration"),
+})
+NOT_APPLICABLE.pop("C13", None)
+NOT_APPLICABLE.pop("C14", None)
+
 NOTES = ("Properties move from not_applicable to checks as their model, correspondence and theorems are built; a check is claimed at `proof` only when its "
          "headline theorems are registered in lean/obligations.json. See DESIGN.md.")
